@@ -35,7 +35,7 @@ type c19 struct{}
 func (c19) ID() string    { return "C19" }
 func (c19) Level() string { return "exploration" }
 func (c19) Rule() string {
-	return "cases = (file, flags): .cnf files for every CNF of T2 (<=2 clauses) and S3 (<=2 clauses) and the conflict-rich seeds, plus satisfiable files with 64..1203 variables and a planted model (validated by evaluating the clauses); .opb files for single PB constraints with every cost function over <=2 variables and constraint pairs; .wcnf files of the C04 family with <=2 clauses; .bf files for every syntax tree with <=3 leaves (incl. brace groups of <=3 names); flags none, -count, -certified, -mus, -cp, -verbose and -verbose with each of the others (only the flags that apply to the file kind); plus an unreadable path, an unknown suffix and a syntactically broken file of each kind. Every case starts the executable built from /repo's working tree as a child process. Oracle: exit status 0 and truthful output: answer line SATISFIABLE/OPTIMUM FOUND with a 'v' line that is a model (truth table) or UNSATISFIABLE only for unsatisfiable files; 'o' lines strictly decreasing, last == true optimum attained by the 'v' line; -count prints the exact count; -certified prints a valid RUP refutation (independent checker) when UNSAT; -mus prints a CNF that is a minimal unsatisfiable sub-multiset of the file; .bf answers match the reference truth table. Bad inputs: non-zero exit and no answer line. Non-trivial = the output had to contain a model, an optimum, a count, a certificate or a MUS that was checked."
+	return "cases = (file, flags): .cnf files for every CNF of T2 (<=2 clauses) and S3 (<=2 clauses) and the conflict-rich seeds, plus family AMO (a fixed subsample of the graphs on 6 vertices as pairwise at-most-one clauses, the two ends of one edge forced true by non-unit clauses, run with -cp: unsatisfiable exactly while that edge survives the rewriting into cardinality constraints), plus satisfiable files with 64..1203 variables and a planted model (validated by evaluating the clauses); .opb files for single PB constraints with every cost function over <=2 variables and constraint pairs; .wcnf files of the C04 family with <=2 clauses; .bf files for every syntax tree with <=3 leaves (incl. brace groups of <=3 names); flags none, -count, -certified, -mus, -cp, -verbose and -verbose with each of the others (only the flags that apply to the file kind); plus an unreadable path, an unknown suffix and a syntactically broken file of each kind. Every case starts the executable built from /repo's working tree as a child process. Oracle: exit status 0 and truthful output: answer line SATISFIABLE/OPTIMUM FOUND with a 'v' line that is a model (truth table) or UNSATISFIABLE only for unsatisfiable files; 'o' lines strictly decreasing, last == true optimum attained by the 'v' line; -count prints the exact count; -certified prints a valid RUP refutation (independent checker) when UNSAT; -mus prints a CNF that is a minimal unsatisfiable sub-multiset of the file; .bf answers match the reference truth table. Bad inputs: non-zero exit and no answer line. Non-trivial = the output had to contain a model, an optimum, a count, a certificate or a MUS that was checked."
 }
 func (c19) Assumptions() []string {
 	return []string{"the executable is built by run.sh from /repo's working tree (path in VERIF_GOPHERSAT_BIN)", "both spellings of the positive answer line are accepted ('s SATISFIABLE', 's OPTIMUM FOUND', and plain SATISFIABLE for .bf): truthfulness is judged, not the exact wording", "flag pairs other than -verbose+X are not generated (the statement lists single flags)"}
@@ -82,6 +82,43 @@ func (c19) Enumerate(tier string, seed int64, yield func(string, core.Case) bool
 		return cnf("cnf/T2", f, n, cnfFlags)
 	}) {
 		return
+	}
+	// AMO: at-most-one structure for the -cp option (the tool then rewrites pairwise encoded groups into cardinality
+	// constraints). Graphs on 6 vertices as negative binary clauses (a fixed subsample: process creation is costly),
+	// with the two ends of one edge forced true through clauses that are not units at parse time
+	// ((a|z)&(a|~z)): the file is unsatisfiable, and stays so only if that very edge survives the rewriting.
+	{
+		type edge struct{ a, b int }
+		var edges []edge
+		for a := 1; a <= 6; a++ {
+			for b := a + 1; b <= 6; b++ {
+				edges = append(edges, edge{a, b})
+			}
+		}
+		step := 61
+		if thorough {
+			step = 7
+		}
+		for mask := 0; mask < 1<<uint(len(edges)); mask += step {
+			var f [][]int
+			for i, e := range edges {
+				if mask>>uint(i)&1 == 1 {
+					f = append(f, []int{-e.a, -e.b})
+				}
+			}
+			for i, e := range edges {
+				if mask>>uint(i)&1 == 0 || (mask/step+i)%5 != 0 {
+					continue
+				}
+				g := append(copyCNF(f), []int{e.a, 7}, []int{e.a, -7}, []int{e.b, 8}, []int{e.b, -8})
+				if !cnf("cnf/AMO", g, 8, [][]string{{"-cp"}}) {
+					return
+				}
+			}
+			if mask%(step*8) == 0 && !cnf("cnf/AMO", f, 6, [][]string{{"-cp"}, {"-cp", "-count"}}) {
+				return
+			}
+		}
 	}
 	k3 := 0
 	if !famS3(2, 2, func(f [][]int, n int) bool {
